@@ -115,7 +115,10 @@ def make_scratch(repo, keep=False):
                     continue
                 if inject.TAG not in txt:
                     continue
-                new, inf = inject.inject(txt, os.path.relpath(p, d))
+                # shared copy: ghost/field text only; loop clauses are injected per group (only groups that apply loop
+                # contracts see them, and only the loops they name)
+                full, inf = inject.inject(txt, os.path.relpath(p, d))
+                new, _ = inject.inject(txt, os.path.relpath(p, d), loops=set())
                 open(p, "w", encoding="utf-8", errors="surrogateescape").write(new)
                 if sub == "src":
                     os.makedirs(os.path.join(d, "raw"), exist_ok=True)
@@ -193,8 +196,8 @@ def run_group(pid, g, scratch, tier, repo, keep_dir=None, trace=False, only_prop
                 raise Undecided("function %s not found in %s" % (fn, rel))
         # loop contracts are applied to every annotated loop of the binary: a group that names its loops gets private
         # copies of the annotated sources with ONLY those loop annotations injected (ghost/field text is always kept)
-        if g.get("loop_contracts") and g.get("loops") is not None and os.path.isdir(os.path.join(scratch, "raw")):
-            want = set(g["loops"])
+        if g.get("loop_contracts") and os.path.isdir(os.path.join(scratch, "raw")):
+            want = set(g["loops"]) if g.get("loops") is not None else None
             os.makedirs(os.path.join(wd, "src"), exist_ok=True)
             for f in os.listdir(os.path.join(scratch, "raw")):
                 txt = open(os.path.join(scratch, "raw", f), encoding="utf-8", errors="surrogateescape").read()
@@ -202,7 +205,7 @@ def run_group(pid, g, scratch, tier, repo, keep_dir=None, trace=False, only_prop
                     new, inf = inject.inject(txt, f, loops=want)
                 except inject.InjectError as e:
                     raise Undecided("annotation injection failed: %s" % e)
-                if inf["skipped"]:
+                if inf["loops"]:
                     open(os.path.join(wd, "src", f), "w", encoding="utf-8", errors="surrogateescape").write(new)
             incs = ["-I", os.path.join(wd, "src")] + incs
         gb = os.path.join(wd, "a.gb")
